@@ -2249,7 +2249,8 @@ func (tc *typechecker) builtinCallName(expr ast.Expression) string {
 // isCompileConstant reports whether expr does not contain channel receives or
 // non-constant function calls.
 func (tc *typechecker) isCompileConstant(expr ast.Expression) bool {
-	if ti := tc.compilation.typeInfos[expr]; ti.IsConstant() {
+	// The name of a package in a selector has no type info.
+	if ti := tc.compilation.typeInfos[expr]; ti != nil && ti.IsConstant() {
 		return true
 	}
 	switch expr := expr.(type) {
